@@ -560,9 +560,17 @@ def gen_conv_program(rng, path, nprocs=1, fmt=None):
         v = Var('c%d' % i, xt, [('x', n)], False)
         vars_.append(v)
         p.all('def_var %s %s 1 x' % (v.name, xt))
-        if xt in XRANGE and rng.chance(1, 3):
+        if xt in XRANGE and rng.chance(1, 2):
             lo, hi = XRANGE[xt]
-            p.all('def_var_fill %s 0 %d' % (v.name, rng.range(max(lo, -50), min(hi, 50))))
+            fv = rng.range(max(lo, -50), min(hi, 50))
+            if rng.chance(1, 2):
+                p.all('def_var_fill %s 0 %d' % (v.name, fv))
+                p.tags.add('conv-userfill-def_var_fill')
+            else:
+                # user fill value given as an attribute only: the variable stays in no-fill mode (the default), the
+                # value substituted for an out-of-range element is the attribute's all the same
+                p.all('put_att %s _FillValue %s 1 %d' % (v.name, xt, fv))
+                p.tags.add('conv-userfill-attribute-nofill')
     p.all('enddef')
     for v in vars_:
         if v.xt == 'char':
